@@ -72,6 +72,15 @@ def jobs(tier):
                              "solver outcome per frequency and all values symbolic" % (t, r, c, "unknown" if unk else "known",
                                                                                      "present" if prior else "absent", "on" if merr else "off"),
                        timeout=300, cbmc_flags=["--slice-formula"]))
+    import C12
+    entry_, defs_, srcs_, _k, _u = C12.SCRIPTS["vnacal_corr"]
+    for c in range(7):
+        J.append(V.Job("refused.make_correlated.case%d" % c, C12.H, "h_correlated_refused", srcs_, stubs=C12.STUBS,
+                       defines=defs_ + C12.ALLOC + ["-DVERIF_FAIL_AT=0", "-DEXPECT_K=0", "-DS_REFUSALS", "-DREFUSE_CASE=%d" % c],
+                       unwind=10, union_struct=True, kind="bounded", canary=(c == 0),
+                       unwindset={"qsort.0": 6, "qsort.1": 6, "qsort.2": 6, "prm_ok.0": 10},
+                       functions=["vnacal_make_correlated_parameter (refusal paths)"],
+                       bound="refusal case %d of harness/c12.c h_correlated_refused (concrete arguments)" % c, timeout=200))
     import C01
     for j in C01.jobs(tier):
         if j.name == "param_hash.deleted_handle":       # deleted handles refused by vnacal_new_add_*, referrers keep working
